@@ -2,6 +2,7 @@
 import ast
 
 from ..core import astutil as A
+from ..core import match as M
 from ..core import atomic
 from ..core import cfg as CFG
 from ..core.model import dotted
@@ -69,10 +70,12 @@ def run(ctx):
         ctx.check("R2", md, ok, f"records-rebuilt-atom@{c.lineno - md.node.lineno}", f"`{A.unparse(c)}` records an atom rebuilt from the key (version, USE, repo and operators of the request are dropped)",
                   f"`{A.unparse(c)}` records `{A.unparse(a)}`, which is not an atom rebuilt from `{req}.key`", node=c)
     t = A.unparse(md.node)
-    ctx.check("R2", md, "== '0'" in t and f"atom({req}.key + ':' + slot)" in t.replace(f"{req}.slot", "slot"), "slot-zero-is-bare-name", "slot '0' records the bare name, any other slot records name:slot")
+    zero = (M.one(md.node, f"$s = {req}.slot\nif $s == '0':\n    $n = atom({req}.key)\nelse:\n    $n = atom({req}.key + ':' + $s)")
+            or M.one(md.node, f"if {req}.slot == '0':\n    $n = atom({req}.key)\nelse:\n    $n = atom({req}.key + ':' + {req}.slot)"))
+    ctx.check("R2", md, zero is not None, "slot-zero-is-bare-name", "slot '0' records the bare name, any other slot records name:slot")
     for name, f_ in (("add", "FileList.add"), ("remove", "FileList.remove")):
         m = P.func(MOD, f"WorldFile.{name}")
-        ctx.check("R2", m, A.unparse(m.node.body[-1]) == f"self._modify(atom_inst, {f_})", f"{name}-via-modify", f"WorldFile.{name} goes through _modify")
+        ctx.check("R2", m, M.has(m.node, f"self._modify({m.params()[1]}, {f_})") and len(list(A.calls(m.node))) == 1, f"{name}-via-modify", f"WorldFile.{name} goes through _modify")
     ctx.floor("R2", 9)
 
     # ---- R3 pmerge: flush discipline -------------------------------------------------------------------------------
@@ -108,13 +111,13 @@ def run(ctx):
 
     # ---- R4 file format ------------------------------------------------------------------------------------------------------
     w = [c for c in A.calls(fl.node) if A.call_attr(c) == "write"]
-    ctx.check("R4", fl, len(w) == 1 and A.unparse(w[0].args[0]) == "'\\n'.join((str(x) for x in sorted(self._atoms)))", "one-atom-per-line-sorted", "flush writes the atoms sorted, one per line")
+    ctx.check("R4", fl, len(w) == 1 and M.pat("'\\n'.join((str($x) for $x in sorted(self._atoms)))").matches(w[0].args[0]) is not None, "one-atom-per-line-sorted", "flush writes the atoms sorted, one per line")
     ps = P.func(MOD, "FileList._parse")
     tp = A.unparse(ps.node)
-    ctx.check("R4", ps, "s.add(atom(x))" in tp and "if not x or x.startswith('#')" in tp and "readlines_ascii(self.path, True)" in tp, "parse-one-atom-per-line", "the reader takes one atom per stripped line, skipping blanks and comments")
+    ctx.check("R4", ps, M.has(ps.node, "with contextlib.closing(readlines_ascii(self.path, True)) as $ls:\n    for $x in $ls:\n        if not $x or $x.startswith('#'):\n            continue\n        elif $x.startswith('@'):\n            ...\n        else:\n            $s.add(atom($x))"), "parse-one-atom-per-line", "the reader takes one atom per stripped line, skipping blanks and comments")
     for name, op in (("add", "self._atoms.add(atom_inst)"), ("remove", "self._atoms.remove(atom_inst)")):
         m = P.func(MOD, f"FileList.{name}")
-        ctx.check("R4", m, A.unparse(m.node.body[-1]) == op, f"set-{name}", f"FileList.{name} touches only the given atom (other entries intact)")
+        ctx.check("R4", m, M.has(m.node, op.replace("atom_inst", m.params()[1])) and len(list(A.calls(m.node))) == 1, f"set-{name}", f"FileList.{name} touches only the given atom (other entries intact)")
     ctx.floor("R4", 4)
 
 
